@@ -570,7 +570,11 @@ func cmpListObjects(ctx context.Context, a, a0 storage.Storage, bucket string, p
 		add("objects", strings.Join(oa, " "), strings.Join(o0, " "))
 	}
 	if strings.Join(pa, "\n") != strings.Join(p0, "\n") {
-		add("common-prefixes", strings.Join(pa, " "), strings.Join(p0, " "))
+		field := "common-prefixes" // on a page cut by max-keys
+		if !t0 {
+			field = "common-prefixes:complete-page"
+		}
+		add(field, strings.Join(pa, " "), strings.Join(p0, " "))
 	}
 	if ta != t0 {
 		add("is-truncated", fmt.Sprint(ta), fmt.Sprint(t0))
@@ -613,24 +617,65 @@ func cmpPagedVersions(ctx context.Context, a, a0 storage.Storage, bucket string,
 	if ka != k0 {
 		return []fdiff{{"list-versions", "error-kind:" + orOK(k0) + "->" + orOK(ka), where, ka, k0}}
 	}
-	if strings.Join(la, "\n") != strings.Join(l0, "\n") {
-		// name the first differing line
+	split := func(lines []string) (vers, prefixes []string, pages string) {
+		n := 0
+		seen := map[string]bool{}
+		for _, l := range lines {
+			switch {
+			case strings.HasPrefix(l, "-- "):
+				pages += fmt.Sprintf("%d,", n)
+				n = 0
+				if !strings.HasPrefix(l, "-- page end") {
+					pages += l
+				}
+			case strings.HasPrefix(l, "prefix "):
+				if !seen[l] {
+					seen[l] = true
+					prefixes = append(prefixes, l)
+				}
+			default:
+				vers = append(vers, l)
+				n++
+			}
+		}
+		return
+	}
+	va, pa, ga := split(la)
+	v0, p0, g0 := split(l0)
+	sorted := func(l []string) string {
+		c := append([]string{}, l...)
+		sort.Strings(c)
+		return strings.Join(c, "\n")
+	}
+	firstDiff := func(x, y []string) (string, string) {
 		i := 0
-		for i < len(la) && i < len(l0) && la[i] == l0[i] {
+		for i < len(x) && i < len(y) && x[i] == y[i] {
 			i++
 		}
-		x, y := "<end>", "<end>"
-		if i < len(la) {
-			x = la[i]
+		a, b := "<end>", "<end>"
+		if i < len(x) {
+			a = x[i]
 		}
-		if i < len(l0) {
-			y = l0[i]
+		if i < len(y) {
+			b = y[i]
 		}
-		field := "paged-listing"
-		if delimiter != nil {
-			field = "paged-listing-with-delimiter"
-		}
-		return []fdiff{{"list-versions", field, where, fmt.Sprintf("line %d: %s", i, x), fmt.Sprintf("line %d: %s", i, y)}}
+		return fmt.Sprintf("entry %d: %s", i, a), fmt.Sprintf("entry %d: %s", i, b)
 	}
-	return nil
+	switch {
+	case sorted(va) != sorted(v0):
+		// entries lost, duplicated or different - independent of their order
+		sa, s0 := strings.Split(sorted(va), "\n"), strings.Split(sorted(v0), "\n")
+		x, y := firstDiff(sa, s0)
+		ds = append(ds, fdiff{"list-versions", "paged-entries", where, fmt.Sprintf("%d entries, %s", len(va), x), fmt.Sprintf("%d entries, %s", len(v0), y)})
+	case strings.Join(va, "\n") != strings.Join(v0, "\n"):
+		x, y := firstDiff(va, v0)
+		ds = append(ds, fdiff{"list-versions", "paged-listing", where, x, y})
+	}
+	if sorted(pa) != sorted(p0) {
+		ds = append(ds, fdiff{"list-versions", "paged-listing-with-delimiter", where, strings.Join(pa, " "), strings.Join(p0, " ")})
+	}
+	if ga != g0 {
+		ds = append(ds, fdiff{"list-versions", "page-boundaries", where, ga, g0})
+	}
+	return ds
 }
